@@ -26,7 +26,7 @@ def _np_funcs():
         "np.arange": lambda *a: np.arange(*a), "np.argmax": lambda a: int(np.argmax(a)), "np.sum": lambda a, axis=None: np.sum(a, axis=axis),
         "np.abs": lambda a: abs(a) if not isinstance(a, np.ndarray) else np.vectorize(lambda z: sp.Abs(z) if isinstance(z, sp.Basic) else abs(z), otypes=[object])(a),
         "np.where": lambda c: np.where(np.array(c, dtype=bool)), "len": len, "interp_n2": interp_n2,
-        "np.zeros": lambda *a, **k: np.zeros(*a, dtype=object), "np.array": lambda a, **k: np.array(a, dtype=object),
+        "np.zeros": lambda *a, **k: np.zeros(*a), "np.array": lambda a, **k: np.array(a), "np.ones": lambda *a, **k: np.ones(*a),
     }
 
 
@@ -81,10 +81,20 @@ class AInterp:
             l = self.ev(n.left, loc)
             r = self.ev(n.comparators[0], loc)
             op = type(n.ops[0])
+            if isinstance(l, np.ndarray) and l.dtype == object and op in (ast.Lt, ast.LtE) and isinstance(r, (int, float)) and r < 1e-6 \
+                    and all(isinstance(x, sp.Abs) or (isinstance(x, sp.Basic) and x.is_nonnegative and x.free_symbols) for x in l.ravel()):
+                # generic-position assumption: a symbolic magnitude is not within a numerical dead zone of zero
+                return np.zeros(l.shape, dtype=bool)
             if isinstance(l, np.ndarray) and l.size == 1 and not isinstance(r, np.ndarray):
                 l = l.ravel()[0]
             if isinstance(r, np.ndarray) and r.size == 1 and not isinstance(l, np.ndarray):
                 r = r.ravel()[0]
+            sym = [x for x in (l, r) if isinstance(x, sp.Basic) and x.free_symbols]
+            if sym:
+                # generic-position assumption: a symbolic magnitude is not within a numerical dead zone of zero
+                if op in (ast.Lt, ast.LtE) and isinstance(l, sp.Abs) and isinstance(r, (int, float)) and r < 1e-6:
+                    return False
+                raise Unsupported("comparison of a symbolic value: %s" % ast.unparse(n))
             table = {ast.Eq: lambda: l == r, ast.NotEq: lambda: l != r, ast.Lt: lambda: l < r, ast.LtE: lambda: l <= r,
                      ast.Gt: lambda: l > r, ast.GtE: lambda: l >= r, ast.Is: lambda: l is r, ast.IsNot: lambda: l is not r}
             if op not in table:
@@ -95,6 +105,8 @@ class AInterp:
             return all(vals) if isinstance(n.op, ast.And) else any(vals)
         if isinstance(n, ast.Tuple):
             return tuple(self.ev(e, loc) for e in n.elts)
+        if isinstance(n, ast.List):
+            return [self.ev(e, loc) for e in n.elts]
         if isinstance(n, ast.Call):
             f = dotted(n.func)
             if f in self.funcs:
